@@ -506,6 +506,10 @@ class Interp:
     def region_of(self, addr, depth=0):
         r, _ = self.root_of(addr)
         if r is None:
+            if 0 <= addr.c < 4096 and self._integer_term(addr):
+                # null + a field offset / an offset computed from shifts, products, divisions or pointer differences
+                # (never a pointer value): no object lives there
+                return ("NULL",)
             # γ(c, p, q) + off with differently rooted branches: either region
             if depth < 4:
                 for a, k in addr.t:
@@ -548,12 +552,31 @@ class Interp:
             return self.region_of(r[1], depth + 1)
         return ("?",)
 
+    def _integer_term(self, t, depth=0):
+        """t cannot be a pointer value: every summand is an integer-valued operator (shift, product, division, flag,
+        rounding of such a term) and the possibly-pointer summands cancel (a difference of two pointers)"""
+        if depth > 4:
+            return False
+        net = 0
+        for a, k in t.t:
+            if a[0] in ("ashr", "lshr", "prod", "udiv", "urem", "b2i"):
+                continue
+            if a[0] == "alignup" and isinstance(a[1], Lin) and self._integer_term(a[1], depth + 1):
+                continue
+            if a[0] in ("mem", "arg", "fresh", "alloca", "global"):
+                net += k
+                continue
+            return False
+        return net == 0
+
     @staticmethod
     def regions_disjoint(r1, r2):
         if r1[0] == "ALT":
             return Interp.regions_disjoint(r1[1], r2) and Interp.regions_disjoint(r1[2], r2)
         if r2[0] == "ALT":
             return Interp.regions_disjoint(r1, r2[1]) and Interp.regions_disjoint(r1, r2[2])
+        if r1 == ("NULL",) or r2 == ("NULL",):
+            return True
         if r1 == ("?",) or r2 == ("?",):
             # an undetermined address is assumed not to point into argument objects' own storage or
             # allocas only when the other side is LOCAL
@@ -844,6 +867,11 @@ class Interp:
         mem.w[(addr, size)] = value
 
     def bulk_write(self, mem, dst, n, tag, copy_from=None, fill=None):
+        if isinstance(dst, Lin) and dst.is_const() and 0 <= dst.c < 4096:
+            # a bulk write through the null pointer (or null + a field offset) overlaps no object of the program (its
+            # length is zero on every defined execution; a non-empty write through null is reported from the event
+            # itself: rule NULLW)
+            return
         reg = self.region_of(dst)
         nn0 = n.const() if isinstance(n, Lin) else None
         if fill is not None and nn0 is not None and 0 < nn0 <= 512 and fill.is_const():
